@@ -109,6 +109,44 @@ func (l *life) call(kind string, size int, probe, silent bool) *lifeCall {
 	return c
 }
 
+// callPre issues a call whose context has ended before the invocation.
+func (l *life) callPre(kind string, size int) *lifeCall {
+	method, nsw := kind, false
+	switch kind {
+	case "UcastNsw":
+		method, nsw = "Ucast", true
+	case "McastNsw":
+		method, nsw = "Mcast", true
+	}
+	c := &lifeCall{tok: l.e.NextTok(), done: make(chan struct{}), obj: &callObj{}}
+	c.ctx = NewManualCtx(c.tok)
+	req := &puppet.Req{Call: c.tok}
+	k := methodKind[method]
+	lv := "none"
+	if k == "corr" || k == "corrstream" {
+		lv = "count"
+	}
+	l.e.QS.Set(c.tok, &QFParams{QF: "thr", K: size, Lv: lv, Orig: req})
+	l.tr.Emit("StubCall", 0, c.tok, "method", method, "probe", false, "kind", k)
+	l.tr.Emit("CtxEnd", 0, c.tok, "cause", "canceled")
+	c.ctx.End("canceled")
+	l.all = append(l.all, c)
+	go func() {
+		defer close(c.done)
+		l.r.Invoke(c.tok, method, k, l.e.Cfgs[size], l.e.Node(1), func(q *puppet.Req, _ uint32) *puppet.Req { return q }, nsw, c.ctx, req, c.obj)
+		switch {
+		case c.obj.asyncRep != nil:
+			c.obj.asyncRep.Get()
+		case c.obj.asyncAgg != nil:
+			c.obj.asyncAgg.Get()
+		case c.obj.corr != nil:
+			<-c.obj.corr.Done()
+		}
+		l.tr.Emit("CallServed", 0, c.tok, "tag", "")
+	}()
+	return c
+}
+
 // mustServe records that the call has to return by itself (with any outcome).
 func (l *life) mustServe(c *lifeCall) { l.tr.Emit("MustServe", 0, c.tok) }
 
@@ -135,7 +173,7 @@ func (l *life) awaitEv(from int, d time.Duration, name string, node uint32) bool
 func (l *life) quiescent() {
 	l.tr.Quiet(QuietT/3, QuietT)
 	time.Sleep(QuietT / 3)
-	l.tr.Emit("Quiescent", 0, 0, "libgoroutines", LibGoroutines())
+	l.tr.Emit("Quiescent", 0, 0, "libgoroutines", LibGoroutines(), "callgoroutines", CallGoroutines())
 }
 
 func (l *life) gate(name string, node uint32) *vtrace.Gate {
@@ -427,6 +465,113 @@ func scenStreamReplaced(tr *vtrace.Tracer, kind string) error {
 	return nil
 }
 
+// C03: FIFO across a stream break with a send buffer.  The first of several
+// asynchronous / one-way calls is being written (sender held before SendMsg),
+// the others wait in the send buffer; the server is restarted, so the write
+// fails while the context is alive; the remaining calls travel over the new
+// connection.  Whatever happens to the first call (it may fail), a server
+// must never start it AFTER the calls that were issued after it.
+func scenFifoAcrossStreamBreak(tr *vtrace.Tracer, kind string) error {
+	switch kind {
+	case "Rpc", "QC", "Ucast", "Mcast":
+		return nil // synchronous invocations do not queue behind each other from one goroutine
+	}
+	l, err := newLife(tr, EnvOpts{Nodes: 1, MgrOpts: []gorums.ManagerOption{gorums.WithBackoff(fastBackoff), gorums.WithSendBufferSize(8)}})
+	if err != nil {
+		return err
+	}
+	defer l.finish()
+	w := l.call("Rpc", 1, false, false)
+	l.wait(w, SyncTimeout)
+	g := l.gate("SendWait", 1)
+	from := tr.Len()
+	issue := func() *lifeCall {
+		c := l.call(kind, 1, false, false)
+		// the stub of an asynchronous / no-send-waiting call returns once the request is queued
+		tr.Await(from, SyncTimeout, func(e vtrace.Event) bool { return e.Ev == "StubRet" && e.Tok == c.tok })
+		return c
+	}
+	first := issue()
+	if !g.Arrived(SyncTimeout) {
+		g.Open()
+		return fmt.Errorf("sender did not reach SendWait")
+	}
+	var rest []*lifeCall
+	for i := 0; i < 4; i++ {
+		rest = append(rest, issue())
+	}
+	l.e.Server(1).Stop()
+	l.awaitEv(from, SyncTimeout, "RecvErr", 1)
+	if err := l.e.Server(1).Start(); err != nil {
+		g.Open()
+		return err
+	}
+	for i := 0; i < 300; i++ {
+		if gorums.VerifRedialNow(l.e.Node(1).RawNode) {
+			break
+		}
+		time.Sleep(10 * time.Millisecond)
+	}
+	g.Open()
+	// wait for the handler of the last call (or give up: the calls may all have failed)
+	last := rest[len(rest)-1]
+	tr.Await(from, QuietT, func(e vtrace.Event) bool { return e.Ev == "HStart" && e.Tok == last.tok })
+	time.Sleep(100 * time.Millisecond)
+	_ = first
+	return nil
+}
+
+// C18: the node dies after the sender's health check has passed, so SendMsg
+// itself fails; the call's context lives on.  Whatever way the call ends, no
+// per-call goroutine (cancellation watcher) and no router may be left.
+func scenSendFailsAfterCheck(tr *vtrace.Tracer, kind string) error {
+	l, err := newLife(tr, EnvOpts{Nodes: 1, MgrOpts: []gorums.ManagerOption{gorums.WithBackoff(fastBackoff)}})
+	if err != nil {
+		return err
+	}
+	defer l.finish()
+	w := l.call("Rpc", 1, false, false)
+	l.wait(w, SyncTimeout)
+	for round := 0; round < 2; round++ {
+		g := l.gate("SendWait", 1)
+		from := tr.Len()
+		b := l.call(kind, 1, false, false)
+		l.mustServe(b)
+		if !g.Arrived(SyncTimeout) {
+			g.Open()
+			return fmt.Errorf("sender did not reach SendWait")
+		}
+		l.e.Server(1).Stop()
+		// wait until the client has noticed (the receiver's read fails)
+		l.awaitEv(from, SyncTimeout, "RecvErr", 1)
+		g.Open()
+		l.wait(b, QuietT)
+		if err := l.e.Server(1).Start(); err != nil {
+			return err
+		}
+		for i := 0; i < 300; i++ {
+			if gorums.VerifRedialNow(l.e.Node(1).RawNode) {
+				break
+			}
+			time.Sleep(10 * time.Millisecond)
+		}
+		for i := 0; i < 20; i++ {
+			pos := tr.Len()
+			y := l.call("Rpc", 1, false, false)
+			l.wait(y, SyncTimeout)
+			if l.awaitEv(pos, 0, "HStart", 1) {
+				break
+			}
+			time.Sleep(30 * time.Millisecond)
+		}
+	}
+	for n := 1; n <= 1; n++ {
+		tr.Emit("Routers", uint32(n), 0, "count", gorums.VerifRouterCount(l.e.Node(n).RawNode))
+	}
+	l.quiescent()
+	return nil
+}
+
 // C10: a node crashes and comes back; the next call's reply must not wait for
 // the receiver's back-off timer (configured far beyond the quiescence period).
 func scenRestart(tr *vtrace.Tracer, kind string) error {
@@ -625,6 +770,60 @@ func scenCloseAtLoopEnd(tr *vtrace.Tracer, kind string) error {
 	return nil
 }
 
+// C12: Close with a node that was down when the manager was created and has
+// never been connected (its channel and sender goroutine exist, its connection
+// does not); afterwards the node comes up: calls must still fail fast.
+func scenCloseNeverConnected(tr *vtrace.Tracer, kind string) error {
+	l, err := newLife(tr, EnvOpts{Nodes: 2, Down: map[int]bool{2: true}, DialTimeout: 100 * time.Millisecond,
+		MgrOpts: []gorums.ManagerOption{gorums.WithBackoff(fastBackoff)}})
+	if err != nil {
+		return err
+	}
+	defer l.finish()
+	a := l.call(kind, 2, false, false)
+	l.wait(a, SyncTimeout)
+	tr.Emit("CloseCall", 0, 0)
+	l.e.Mgr.Close()
+	tr.Emit("CloseReturned", 0, 0)
+	if err := l.e.Server(2).Start(); err != nil {
+		return err
+	}
+	time.Sleep(20 * time.Millisecond)
+	c := l.call(kind, 2, false, false)
+	l.wait(c, QuietT)
+	l.quiescent()
+	return nil
+}
+
+// C09: calls whose context has already ended when they are issued (half of
+// them reach the send queue and are skipped by the sender) must not disable the node.
+func scenCtxBeforeSend(tr *vtrace.Tracer, kind string) error {
+	l, err := newLife(tr, EnvOpts{Nodes: 2})
+	if err != nil {
+		return err
+	}
+	defer l.finish()
+	w := l.call("Rpc", 2, false, false)
+	l.wait(w, SyncTimeout)
+	for i := 0; i < 12; i++ {
+		c := l.call(kind, 2, false, false)
+		c.ctx.End("canceled") // may strike before, during or after the hand-off
+		l.tr.Emit("CtxEnd", 0, c.tok, "cause", "canceled")
+		l.wait(c, QuietT)
+	}
+	for i := 0; i < 12; i++ {
+		x := l.callPre(kind, 2)
+		l.wait(x, QuietT)
+	}
+	time.Sleep(20 * time.Millisecond)
+	p := l.call("Rpc", 2, true, false)
+	l.wait(p, QuietT)
+	q := l.call("QC", 2, true, false)
+	l.wait(q, QuietT)
+	l.quiescent()
+	return nil
+}
+
 // C12: Close on a manager created with WithNoConnect.
 func scenCloseNoConnect(tr *vtrace.Tracer, kind string) error {
 	mgr := puppet.NewManager(gorums.WithNoConnect())
@@ -644,7 +843,7 @@ func scenCloseNoConnect(tr *vtrace.Tracer, kind string) error {
 		mgr.Close()
 	}()
 	tr.Emit("CloseReturned", 0, 0, "panicked", panicked)
-	tr.Emit("Quiescent", 0, 0, "libgoroutines", LibGoroutines())
+	tr.Emit("Quiescent", 0, 0, "libgoroutines", LibGoroutines(), "callgoroutines", CallGoroutines())
 	return nil
 }
 
@@ -660,7 +859,16 @@ var LifeScenarios = map[string][]LifeScenario{
 		{Name: "stale-broken-read", Run: scenStaleBrokenRead},
 		{Name: "stream-outruns-call", Kind: "CorrStream", Run: scenStreamOutrunsCall},
 		{Name: "stream-replaced", Run: scenStreamReplaced},
+		{Name: "ctx-before-send", Run: scenCtxBeforeSend},
 		{Name: "ctx-while-written", Run: scenCtxWhileWritten},
+	},
+	"C03": {
+		{Name: "fifo-across-stream-break", Run: scenFifoAcrossStreamBreak},
+	},
+	"C18": {
+		{Name: "send-fails-after-check", Run: scenSendFailsAfterCheck},
+		{Name: "ctx-while-written", Run: scenCtxWhileWritten},
+		{Name: "stream-replaced", Run: scenStreamReplaced},
 	},
 	"C10": {
 		{Name: "restart", Run: scenRestart},
@@ -672,5 +880,6 @@ var LifeScenarios = map[string][]LifeScenario{
 		{Name: "close-buffered", Run: scenCloseBuffered},
 		{Name: "close-at-loop-end", Run: scenCloseAtLoopEnd},
 		{Name: "close-noconnect", Kind: "Rpc", Run: scenCloseNoConnect},
+		{Name: "close-never-connected", Run: scenCloseNeverConnected},
 	},
 }
